@@ -626,11 +626,12 @@ impl<'a> UserModel<'a> {
         // The history entry is only recorded once the deletion has succeeded
         self.model.delete_sheet(sheet)?;
 
-        // If we are deleting the last sheet we need to change the selected sheet
-        if sheet == sheet_count - 1 && sheet_count > 1 {
-            if let Some(view) = self.model.workbook.views.get_mut(&self.model.view_id) {
-                view.sheet = sheet_count - 2;
-            };
+        // The sheets after the deleted one move down one position: the selection follows
+        // its sheet, and if the selected sheet was the last one we select the new last sheet
+        if let Some(view) = self.model.workbook.views.get_mut(&self.model.view_id) {
+            if view.sheet > sheet || view.sheet + 1 >= sheet_count {
+                view.sheet = view.sheet.saturating_sub(1);
+            }
         }
 
         self.push_diff_list(vec![Diff::DeleteSheet { sheet, old_data }]);
